@@ -163,6 +163,19 @@ def check_codecs(ctx):
     ctx.floor("payload codecs compared with their reference model", len(CODEC_RULES), 12)
 
 
+def _counts_header_length(fn, it) -> bool:
+    """`range(n)` with n the length element of the item header decoded in this function (whatever the local is called)."""
+    if not (isinstance(it, ast.Call) and isinstance(it.func, ast.Name) and it.func.id == "range" and len(it.args) == 1 and isinstance(it.args[0], ast.Name)):
+        return False
+    for n in ast.walk(fn):
+        if (isinstance(n, ast.Assign) and len(n.targets) == 1 and isinstance(n.targets[0], ast.Tuple) and len(n.targets[0].elts) == 3 and isinstance(n.value, ast.Call)
+                and (call_name(n.value) or "").endswith("decode_item_header")):
+            last = n.targets[0].elts[2]
+            if isinstance(last, ast.Name) and last.id == it.args[0].id:
+                return True
+    return False
+
+
 def _stores_value(ctx, f, field_names=("self.value", "self.data")):
     """Every normal path of decode stores the decoded value (directly or via set(x) that stores on every path)."""
     cfg = cfg_of(f.node)
@@ -180,7 +193,7 @@ def _stores_value(ctx, f, field_names=("self.value", "self.data")):
                 stores.append(n)  # delegation to a child that stores itself
                 # a record with zero transmitted members has nothing to store: the loop header counts as the store
                 for h in cfg.nodes:
-                    if h.kind == "iter" and norm(h.ast.iter) == "range(length)" and cfg.path_exists(rules.branch_marker(h, "true"), n, avoid=[h]):
+                    if h.kind == "iter" and _counts_header_length(f.node, h.ast.iter) and cfg.path_exists(rules.branch_marker(h, "true"), n, avoid=[h]):
                         stores.append(h)
             if cn.endswith(".append") and cn.startswith("self."):
                 stores.append(n)
